@@ -227,6 +227,100 @@ def api_mix(tier, k):
               red_script={"r1": {0: red("D"), 1: red("D", eff("task"))}}, max_tasks=2)
 
 
+# ---- heavier instances: model checking only (thorough tier), 10^6 .. 10^7 states
+
+def disp_heavy(pol="block", cap=1):
+    rs = {"r1": {0: red("D"), 1: red("K")}, "r2": {0: red("D"), 1: red("K", eff("task"))}}
+    progs = [{"c1": [D(1, "impl"), D(2, "trait")], "c2": [D(3, "store"), D(4, "impl")], "c3": [D(5, "trait"), D(6, "store")],
+              "c4": [O("get_state"), O("stop"), O("get_state")]}]
+    return _i("dispH_%s%d" % (pol, cap), progs, {1: 0, 2: 1, 3: 0, 4: 1, 5: 0, 6: 0}, cap=cap, pol=pol,
+              reducers=("r1", "r2"), red_script=rs, max_tasks=2, cb_reads=False)
+
+
+def burst_heavy(pol, cap):
+    n = cap + 1
+    progs = [{"c1": [D(i, "trait") for i in range(1, n + 1)], "c2": [D(10 + i, "impl") for i in range(1, n + 1)],
+              "c3": [D(20, "store")] + STOP}]
+    acts = {i: 0 for i in list(range(1, n + 1)) + [10 + i for i in range(1, n + 1)] + [20]}
+    return _i("burstH_%s%d" % (pol, cap), progs, acts, cap=cap, pol=pol, cb_reads=False)
+
+
+def stop_heavy(pol="block"):
+    rs = {"r1": {0: red("D"), 1: red("D", eff("task"))}}
+    progs = [{"c1": [S("subscribed", "s1"), D(1, "impl"), D(2, "trait")], "c2": [D(4, "store"), D(5, "trait")],
+              "c3": [O("stop"), D(3, "impl"), O("get_state"), O("metrics")], "c4": [O("stop")]}]
+    return _i("stopH_%s" % pol, progs, {1: 0, 2: 1, 3: 0, 4: 0, 5: 0}, cap=1, pol=pol, red_script=rs, max_tasks=1,
+              subs={"s1": {"kind": "chan", "cap": 1, "pol": "block"}}, cb_reads=False)
+
+
+def subs_heavy():
+    rs = {"r1": {0: red("D"), 1: red("K")}}
+    progs = [{"c1": [S("add_sub", "s1"), S("add_sub", "s2"), D(1), D(2), S("unsub", "s1"), D(3)] + STOP,
+              "c2": [D(4, "trait"), D(5, "trait")], "c3": [S("add_sub", "s3"), S("unsub", "s3")]}]
+    return _i("subsH", progs, {1: 0, 2: 1, 3: 0, 4: 0, 5: 1}, cap=2, red_script=rs, cb_reads=False,
+              subs={"s1": {"kind": "direct"}, "s2": {"kind": "direct"}, "s3": {"kind": "direct"}})
+
+
+def chan_heavy(pol, cap):
+    progs = [{"c1": [S("subscribed", "s1"), S("add_sub", "s2"), D(1), D(2), D(3), D(4), S("unsub", "s1")],
+              "c2": [D(5, "trait")] + STOP}]
+    return _i("chanH_%s%d" % (pol, cap), progs, {1: 0, 2: 0, 3: 0, 4: 0, 5: 0}, cap=2, cb_reads=False,
+              subs={"s1": {"kind": "chan", "cap": cap, "pol": pol}, "s2": {"kind": "direct"}})
+
+
+def iter_heavy():
+    progs = [{"c1": [S("iter", "s1"), S("signal", "g")] + [S("next", "s1")] * 3 + [S("drop_iter", "s1")],
+              "c2": [S("add_sub", "s2"), D(1), D(2), D(3), S("wait", "g")] + STOP, "c3": [D(4, "trait")]}]
+    return _i("iterH", progs, {1: 0, 2: 0, 3: 0, 4: 0}, cap=2, cb_reads=False,
+              subs={"s1": {"kind": "iter", "cap": 1, "pol": "block"}, "s2": {"kind": "direct"}})
+
+
+HEAVY = {
+    "C01": lambda: [(disp_heavy("block", 1), ["C01_Fold", "C01_ExactlyOnce", "C01_Threaded", "C02_ReduceOrder"], ["C01_FinalAfterStop"]),
+                    (disp_heavy("block", 2), ["C01_Fold", "C01_ExactlyOnce", "C01_Threaded", "C02_ReduceOrder"], [])],
+    "C02": lambda: [(disp_heavy(p, 1), ["C02_Order", "C02_ReduceOrder"], []) for p in ("block", "oldest", "latest")],
+    "C03": lambda: [(subs_heavy(), ["C03_OnlyDispatch", "C03_EveryDispatch", "C03_StateAndOrder", "C03_Stream", "C09_Notified"], [])],
+    "C04": lambda: [(stop_heavy(p), ["C04_Barrier", "C04_ErrNeverReduced", "C10_Flush"], ["C04_Final"]) for p in ("block", "latest")],
+    "C05": lambda: [(burst_heavy("block", c), ["C05_Bound", "C05_NoLoss", "C01_ExactlyOnce"], []) for c in (1, 2, 3)],
+    "C06": lambda: [(burst_heavy(p, c), ["C06_NeverBlocks", "C06_Conservation", "C06_ErrIffDropped", "C06_Exact", "C05_Bound", "C02_Order"], [])
+                    for p in ("oldest", "latest") for c in (1, 2)],
+    "C09": lambda: [(subs_heavy(), ["C09_Notified", "C09_SilentAfter", "C09_ReleasedAtMostOnce", "C09_Released"], [])],
+    "C10": lambda: [(chan_heavy(p, c), ["C10_OwnThread", "C10_Stream", "C10_Flush", "C10_NoStall", "C05_Bound"], [])
+                    for (p, c) in (("block", 1), ("oldest", 1), ("latest", 2))],
+    "C13": lambda: [(stop_heavy("block"), ["C13_NoDeadlock"], []), (iter_heavy(), ["C13_NoDeadlock"], []),
+                    (chan_heavy("block", 1), ["C13_NoDeadlock"], [])],
+    "C14": lambda: [(iter_heavy(), ["C14_Stream", "C14_Detached", "C13_NoDeadlock"], [])],
+    "C15": lambda: [],
+    "C18": lambda: [(burst_heavy("oldest", 2), ["C18_Balance", "C06_Conservation"], ["C18_Monotone"]),
+                    (stop_heavy("latest"), ["C18_Balance"], ["C18_Monotone"])],
+}
+
+
+def bigger(inst, k, cap=None):
+    """the same programs with k dispatches for every dispatch (fresh action ids, same kind and entry
+    point): too large for TLC to enumerate, used for free runs validated against the specification"""
+    acts = dict(inst["acts"])
+    nxt = max(acts) + 100
+    progs = []
+    for p in inst["programs"]:
+        q = {}
+        for c, ops in p.items():
+            out = []
+            for o in ops:
+                out.append(o)
+                if o["op"] == "dispatch":
+                    for _ in range(k - 1):
+                        nxt += 1
+                        acts[nxt] = acts[o["a"]]
+                        out.append(dict(o, a=nxt))
+            q[c] = out
+        progs.append(q)
+    b = dict(inst)
+    b.update(name=inst["name"] + "_x%d" % k, programs=progs, acts=acts, cap=cap or inst["cap"],
+             max_tasks=inst["max_tasks"] * k + 2)
+    return b
+
+
 # ------------------------------------------------------------------------------------ property table
 
 SAFETY_COMMON = ["C05_Bound", "C01_Fold", "C06_Conservation", "C11_AtMostOnce", "C09_ReleasedAtMostOnce"]
@@ -323,4 +417,15 @@ def table(pid, tier):
                  free=[(i, 60 if q else 400) for i in insts])
     for k in ("mc", "gen", "free", "strict", "live"):
         T.setdefault(k, [])
+    if not q and pid in HEAVY:
+        T["mc"] = T["mc"] + HEAVY[pid]()
+    if not q:
+        # beyond the bounds TLC enumerates: the same programs with 4 dispatches for each one
+        extra = []
+        for inst, reps in T["free"]:
+            uses_followup = any(e["eff"]["k"] in ("act", "thunk") for t in inst["red_script"].values() for e in t.values()) \
+                or any(o["op"] == "thunk" for p in inst["programs"] for ops in p.values() for o in ops)
+            if not uses_followup:
+                extra.append((bigger(inst, 4), max(100, reps // 3)))
+        T["free"] = T["free"] + extra
     return T
